@@ -20,6 +20,15 @@ pub fn day_fraction_offsets(seed: u64) -> Vec<f64> {
         v.push(d);
         v.push(-d);
     }
+    // large whole-day counts plus a whole number of seconds (non-dyadic): days x 86400 looks integral in f64
+    for k in [65_536.0f64, 100_000.0, 200_000.0, 1_000_000.0, 3_000_000.0] {
+        for j in [1.0f64, 5.0, 43_200.0, 86_399.0] {
+            v.push(k + j / 86_400.0);
+            v.push(-(k + j / 86_400.0));
+        }
+    }
+    v.push(100_000.000_057_870_38);
+    v.push(200_000.000_034_722_2);
     v
 }
 
